@@ -119,6 +119,9 @@ def eval_images_doc(doc, mode="fresh"):
     if mode == "reused":
         first = images_doc([["Zother", {"x86_64": 1, "i386": None, "src": None}]], "1.2")     # (a current manifest WITH an image: add() runs)
         im.loads(json.dumps(first))
+        for image in list(im.images["Zother"]["x86_64"]):        # ... and the caller has used the object since: add() and a header query
+            im.add("Zother", "x86_64", image)
+        im.header.version_tuple
         r = call(im.loads, json.dumps(doc))
     elif mode == "second-consumer":
         parsed = json.loads(json.dumps(doc))
@@ -210,6 +213,7 @@ def eval_rpms_doc(doc, mode="fresh"):
     r = pr.Rpms()
     if mode == "reused":
         r.loads(json.dumps({"header": {"type": "productmd.rpms", "version": "1.2"}, "payload": {"compose": dict(COMPOSE), "rpms": {}}}))
+        r.header.version_tuple                                    # (the caller has looked at the header since)
         res = call(r.loads, json.dumps(doc))
     elif mode == "second-consumer":
         parsed = json.loads(json.dumps(doc))
